@@ -13,6 +13,7 @@
    configurations (the reals theorems do not). *)
 From Coq Require Import ZArith List Bool Reals. Import ListNotations.
 From PV Require Import Num NumR model.Geom proofs.LatticeFacts proofs.SiteFacts proofs.OverlapFacts proofs.ConvexFacts proofs.PackingFacts proofs.MotionFacts.
+From PV Require Import gen.GenFns proofs.SourceFacts.
 
 Theorem C12_seg_yes_gives_common_point :
   forall s o : segR, seg_intersects NumR s o = true -> exists ta tb : R, (0 <= ta <= 1)%R /\ (0
@@ -108,4 +109,20 @@ Theorem C12_poly_intersects_affine_invariant :
     (Poly l) (Poly m).
 Proof. exact poly_intersects_affine_invariant. Qed.
 Print Assumptions C12_poly_intersects_affine_invariant.
+
+
+Theorem C12_disc_intersects_is_source :
+  forall (NN : Num) (a b : disc NN), gen_disc_intersects NN a b = disc_intersects NN a b.
+Proof. exact disc_intersects_is_source. Qed.
+Print Assumptions C12_disc_intersects_is_source.
+
+Theorem C12_seg_intersects_is_source :
+  forall (NN : Num) (s o : seg NN), gen_seg_intersects NN s o = seg_intersects NN s o.
+Proof. exact seg_intersects_is_source. Qed.
+Print Assumptions C12_seg_intersects_is_source.
+
+Theorem C12_source_translated :
+  gen_fns_problem = String.EmptyString.
+Proof. exact source_translated. Qed.
+Print Assumptions C12_source_translated.
 
